@@ -313,7 +313,18 @@ def gen_case(rng, tier, flavour=None):
             "t0": float(2 ** 30 + rng.randint(0, 10 ** 6)).hex(), "scans": [gen_scan(rng) for _ in range(rng.choice([0, 1, 2]))]}
 
 
+def gen_local_cases(rng, tier):
+    for _ in range(10 if tier == "quick" else 150):
+        yield {"local_backend": True, "seed": rng.randrange(10 ** 9), "n_reports": rng.randint(2, 8),
+               "p_poll": rng.choice([0.3, 0.7, 1.0])}
+
+
 def gen_cases(rng, tier):
+    yield from gen_local_cases(rng, tier)
+    yield from gen_cases_stream(rng, tier)
+
+
+def gen_cases_stream(rng, tier):
     n = 300 if tier == "quick" else 4000
     for i in range(n):
         yield gen_case(rng, tier)
@@ -464,8 +475,73 @@ def monitor(spec, t):
     return out
 
 
+def run_local_backend(spec):
+    """the real LocalBackend reading a trial's captured stdout: the file grows between polls (chunks end at
+    report-line ends or inside noise, never inside a report line); every poll must return a prefix of the
+    reports written so far, the last poll all of them"""
+    import contextlib, datetime, io, os, random, shutil, tempfile
+    from syne_tune.backend.local_backend import LocalBackend
+    from syne_tune.backend.trial_status import Trial, Status
+    from syne_tune.report import Reporter
+    rng = random.Random(spec["seed"])
+    root = tempfile.mkdtemp(prefix="c18local")
+    mon = []
+    try:
+        script = os.path.join(root, "train.py")
+        open(script, "w").write("pass\n")
+        be = LocalBackend(entry_point=script)
+        be.set_path(results_root=root, tuner_name="t")
+        os.makedirs(be.trial_path(0), exist_ok=True)
+        be._trial_dict[0] = Trial(trial_id=0, config={}, creation_time=datetime.datetime(2020, 1, 1))
+        be._read_status = lambda trial_id: Status.in_progress
+        be._is_process_done = lambda trial_id: False
+        rep = Reporter()
+        pieces, sent = [], []
+        for i in range(spec["n_reports"]):
+            if rng.random() < 0.6:
+                noise = rng.choice(["progress 10%", "epoch done\n", "x}", "{", "loading...\n", "\r50%", ""])
+                if noise:
+                    pieces.append(("noise", noise))
+            buf = io.StringIO()
+            with contextlib.redirect_stdout(buf):
+                rep(step=i, loss=rng.randrange(1000) / 8.0)
+            pieces.append(("report", buf.getvalue()))
+            sent.append(i)
+        path = os.path.join(be.trial_path(0), "std.out")
+        open(path, "w").close()
+        got_last = []
+        n_rep = 0
+        polls = 0
+        for kind, text in pieces:
+            with open(path, "a") as f:
+                f.write(text)
+            if kind == "report":
+                n_rep += 1
+            if rng.random() < spec["p_poll"] or kind == "noise":
+                res = be._all_trial_results([0])[0]
+                polls += 1
+                got = [m.get("step") for m in res.metrics]
+                if got != sent[:n_rep]:
+                    mon.append({"signature": "c18:local-backend-poll-loses-report",
+                                "what": f"poll after {n_rep} reports (file ends with {text[-12:]!r}) returned steps {got}, expected {sent[:n_rep]}",
+                                "detail": {"pieces": pieces[:12]}})
+                    break
+                got_last = got
+        res = be._all_trial_results([0])[0]
+        got = [m.get("step") for m in res.metrics]
+        if not mon and got != sent:
+            mon.append({"signature": "c18:local-backend-poll-loses-report",
+                        "what": f"final poll returned steps {got}, expected {sent}", "detail": {"pieces": pieces[:12]}})
+    finally:
+        shutil.rmtree(root, ignore_errors=True)
+    return {"lines": [], "monitor": mon, "meta": {"hist": {"local_backend_cases": 1, "local_backend_polls": polls},
+                                                    "delivered": len(sent), "rejected": 0, "same_line": 1, "tricky": 0}}
+
+
 def run_impl(spec):
     spec = dict(spec)
+    if spec.get("local_backend"):
+        return run_local_backend(spec)
     if "pad_to" in spec:
         # corpus cases at the size limit: make the first report's JSON text exactly `pad_to` characters long
         spec = _pad(spec)
